@@ -1012,6 +1012,7 @@ WITNESS_FONTS = {
         {"type": 2, "flag": 0, "subtables": [{"coverage": [2], "sequences": [[]]}]},                       # delete b
         {"type": 1, "flag": 0, "subtables": [{"format": 2, "coverage": [3], "subst": [6]}]},               # c -> z
         {"type": 5, "flag": 0, "subtables": [{"format": 3, "coverages": [[1], [2]], "lookups": [(1, 0), (1, 1)]}]}]}}, "abc"),
+    # repaired (fix: ReverseChainSingleSubst ... backtrack does not match): kept as a regression witness, class None
     "reverse-chain-concat": ({"num_glyphs": 7, "cmap": _ABC, "gsub": {"features": [{"tag": "ccmp", "lookups": [0]}], "lookups": [
         {"type": 8, "flag": 0, "subtables": [{"coverage": [3], "backtrack": [[1]], "lookahead": [], "subst": [6]}]}]}}, "abc"),
 }
@@ -1074,8 +1075,6 @@ def synth_known_class(s, kind="break"):
         return "nested-delete-drift"
     if g.get("has_seq2"):
         return "deleted-flag-carrier"
-    if kind == "concat" and g.get("has_reverse"):
-        return "reverse-chain-concat"
     if shaped_reversed(s) and g.get("has_lig"):
         return "reversed"
     return None
@@ -1208,16 +1207,7 @@ def make_fraction_shaping(r, g, flags, dirs=("l", "r", "l", "r", "t", "b"), leve
     return s
 
 
-KNOWN_CLASSES["reverse-chain-concat"] = (
-    "ReverseChainSingleSubst (GSUB/reverse_chain_single_subst.rs, same in HarfBuzz): when the BACKTRACK does not match, "
-    "`end_index` is still 0 and unsafe_to_concat_from_outbuffer(start_index, 0) flags the empty span — the glyph and the "
-    "backtrack glyph it inspected stay free of UNSAFE_TO_CONCAT (e.g. Linefont.ttf <1, X, 2> with X unmapped: joining "
-    "<1> and <2> forms the contextual pair)")
-
-
 def fraction_known_class(s, kind="break"):
     if s.g.get("synthetic"):
         return "reversed" if shaped_reversed(s) else None
-    if kind == "concat" and s.g.get("has_reverse"):
-        return "reverse-chain-concat"
     return known_class(s, kind)
